@@ -280,6 +280,14 @@ func (fr *Frame) call0(in ssa.Instruction, c *ssa.CallCommon) []Val {
 	ex := fr.ex
 	pos := in.Pos()
 	if b, ok := c.Value.(*ssa.Builtin); ok {
+		if b.Name() == "append" {
+			// "at append#n ghost|assert": the built-in append is a site (arg0 the slice, arg1 the appended slice)
+			var bargs []Val
+			for _, a := range c.Args {
+				bargs = append(bargs, fr.val(a))
+			}
+			fr.siteClauses(in, c, "append", &calleeInfo{display: "append"}, bargs, nil, false)
+		}
 		return fr.builtin(in, b, c)
 	}
 	ci := fr.calleeOf(c)
@@ -452,6 +460,7 @@ func (fr *Frame) freshResults(sig *types.Signature, hint string) []Val {
 func (fr *Frame) applyContract(in ssa.Instruction, ci calleeInfo, ct *Contract, args []Val, pos token.Pos) []Val {
 	ex := fr.ex
 	names := fr.bindParams(ci, ct, args)
+	names["$callee"] = Val{T: ct.Key, S: SInt} // marks a contract applied at a call site (per-call witness functions: sortperm)
 	// variadic string arguments built from literals get a stable key (e.g. "status.observedGeneration")
 	if cc := callCommonOf(in); cc != nil && ci.sig != nil && ci.sig.Variadic() && len(cc.Args) > 0 {
 		names["varargs_key"] = fr.varargsKey(cc.Args[len(cc.Args)-1])
@@ -971,7 +980,10 @@ func (fr *Frame) siteOrdinal(in ssa.Instruction, pat string) int {
 			if cc == nil {
 				continue
 			}
-			if _, isB := cc.Value.(*ssa.Builtin); isB {
+			if bi, isB := cc.Value.(*ssa.Builtin); isB {
+				if bi.Name() == "append" && pat == "append" {
+					sites = append(sites, site{i2.Pos(), i2})
+				}
 				continue
 			}
 			d := fr.calleeDisplayQuick(cc)
